@@ -256,55 +256,65 @@ theorem forward_histOk (s : State) (h : HistOk s) : HistOk { s with hist := Hist
   · exact h
 
 theorem keySwitch_ok (w : World) (s : State) (k : Nat) (h : HistOk s) :
-    ∃ s', keySwitch w s k = .ok s' ∧ HistOk s' ∧ s'.mode = s.mode ∧ s'.buffer = s.buffer := by
+    ∃ s', keySwitch w s k = .ok s' ∧ HistOk s' ∧
+      (s'.mode = s.mode ∧ s'.buffer = s.buffer ∨ s'.mode = .opening) := by
   have hc := current_eq s.hist h
   have hci := currentItem_spec s _ hc
   have sw : ∀ t, (∀ c, t ≠ Ui.Target.container c) →
-      ∃ s', switchTo w s t = .ok s' ∧ HistOk s' ∧ s'.mode = s.mode ∧ s'.buffer = s.buffer := by
+      ∃ s', switchTo w s t = .ok s' ∧ HistOk s' ∧
+        (s'.mode = s.mode ∧ s'.buffer = s.buffer ∨ s'.mode = .opening) := by
     intro t ht
     cases t with
     | list xs =>
       obtain ⟨s', h1, h2, h3, h4⟩ := switchTo_list w s xs (.inr h)
-      refine ⟨s', h1, ?_, h3, h4⟩
+      refine ⟨s', h1, ?_, .inl ⟨h3, h4⟩⟩
       rcases h2 with rfl | h2
       · exact h
       · exact h2.1
     | item x =>
       obtain ⟨s', h1, h2, h3, h4⟩ := switchTo_item w s x (.inr h)
-      exact ⟨s', h1, h2.1, h3, h4⟩
+      exact ⟨s', h1, h2.1, .inl ⟨h3, h4⟩⟩
     | container c => exact absurd rfl (ht c)
+  have same : ∀ s' : State, s'.mode = s.mode → s'.buffer = s.buffer →
+      (s'.mode = s.mode ∧ s'.buffer = s.buffer ∨ s'.mode = .opening) := fun _ a b => .inl ⟨a, b⟩
   unfold keySwitch
   split
   · obtain ⟨p', h1, _⟩ := moveLoad w s Feed.moveUp _ hc
-    exact ⟨_, h1, setCurrent_histOk _ _ h, rfl, rfl⟩
+    exact ⟨_, h1, setCurrent_histOk _ _ h, same _ rfl rfl⟩
   split
   · obtain ⟨p', h1, _⟩ := moveLoad w s Feed.moveDown _ hc
-    exact ⟨_, h1, setCurrent_histOk _ _ h, rfl, rfl⟩
+    exact ⟨_, h1, setCurrent_histOk _ _ h, same _ rfl rfl⟩
   split
-  · exact ⟨_, withFeed_spec s _ _ hc, setCurrent_histOk _ _ h, rfl, rfl⟩
+  · exact ⟨_, withFeed_spec s _ _ hc, setCurrent_histOk _ _ h, same _ rfl rfl⟩
   split
-  · exact ⟨_, rfl, back_histOk s h, rfl, rfl⟩
+  · exact ⟨_, rfl, back_histOk s h, same _ rfl rfl⟩
   split
-  · exact ⟨_, rfl, forward_histOk s h, rfl, rfl⟩
+  · exact ⟨_, rfl, forward_histOk s h, same _ rfl rfl⟩
   split
   · rw [hci]
     split
     · rename_i e he; cases he
-    · exact ⟨s, rfl, h, rfl, rfl⟩
+    · exact ⟨s, rfl, h, same _ rfl rfl⟩
     · exact sw _ (by intro c hc; cases hc)
   split
   · rw [hci]
     simp only
     split
     · exact sw _ (by intro c hc; cases hc)
-    · exact ⟨s, rfl, h, rfl, rfl⟩
+    · exact ⟨s, rfl, h, same _ rfl rfl⟩
   split
   · rw [hci]
     split
     · rename_i e he; cases he
     · exact sw _ (by intro c hc; cases hc)
-    · exact ⟨s, rfl, h, rfl, rfl⟩
-  · exact ⟨s, rfl, h, rfl, rfl⟩
+    · exact ⟨s, rfl, h, same _ rfl rfl⟩
+  split
+  · rw [hci]
+    simp only
+    split
+    · exact ⟨_, rfl, h, .inr rfl⟩
+    · exact ⟨s, rfl, h, same _ rfl rfl⟩
+  · exact ⟨s, rfl, h, same _ rfl rfl⟩
 
 /-! ### `update` -/
 
@@ -378,12 +388,16 @@ theorem update_inv (w : World) (s : State) (k : Nat) (h : Inv s) :
       · split
         · obtain ⟨s', e1, e2, e3, _⟩ := openItem_ok w s _ (.inr hok)
           exact ⟨s', e1, inv_normal _ e2 (by simp [e3])⟩
-        · exact ⟨_, rfl, inv_normal _ hok (by simp)⟩
-    · obtain ⟨s', e1, e2, e3, _⟩ := keySwitch_ok w { s with mode := .normal, buffer := [] } k hok
-      exact ⟨s', e1, inv_normal _ e2 (by simp [e3])⟩
+        · exact ⟨_, rfl, inv_normal _ hok (by simp [openExternally])⟩
+    · obtain ⟨s', e1, e2, e3⟩ := keySwitch_ok w { s with mode := .normal, buffer := [] } k hok
+      refine ⟨s', e1, inv_normal _ e2 ?_⟩
+      rcases e3 with ⟨e3, _⟩ | e3 <;> simp [e3]
   · rename_i hsel
-    obtain ⟨s', e1, e2, e3, _⟩ := keySwitch_ok w s k hok
-    exact ⟨s', e1, inv_normal _ e2 (by rw [e3]; exact hsel)⟩
+    obtain ⟨s', e1, e2, e3⟩ := keySwitch_ok w s k hok
+    refine ⟨s', e1, inv_normal _ e2 ?_⟩
+    rcases e3 with ⟨e3, _⟩ | e3
+    · rw [e3]; exact hsel
+    · simp [e3]
 
 theorem start_aux (w : World) (context : Nat) (arg : Str) (feeds : List (Str × List Str)) :
     ∃ s, start w context arg feeds = .ok s ∧ Inv s ∧ s.mode = .normal := by
@@ -472,5 +486,64 @@ theorem move_aux (w : World) (s s' : State) (page : Ui.Page) (f : Feed.F T → F
   rw [e1] at hs
   cases hs
   exact ⟨p', current_setCurrent s p' (current_lt _ _ hp), e2, rfl, by simp, rfl⟩
+
+/-- The media keys: `o` / `p` / `b` reach the last branch of the key switch. -/
+theorem keySwitch_media (w : World) (s : State) (k : Nat) (cur : Option T)
+    (hk : k = 'o'.toNat ∨ k = 'p'.toNat ∨ k = 'b'.toNat) (hc : currentItem s = .ok cur) :
+    keySwitch w s k =
+      .ok (match (if k = 'o'.toNat then mediaOf w cur else pictureOf w (k = 'b'.toNat) cur) with
+           | some x => openExternally s x.link
+           | none => s) := by
+  have ek : 'k'.toNat = 107 := by decide
+  have ej : 'j'.toNat = 106 := by decide
+  have eg : 'g'.toNat = 103 := by decide
+  have eh : 'h'.toNat = 104 := by decide
+  have el : 'l'.toNat = 108 := by decide
+  have es : ' '.toNat = 32 := by decide
+  have ec : 'c'.toNat = 99 := by decide
+  have er : 'r'.toNat = 114 := by decide
+  have ea : 'a'.toNat = 97 := by decide
+  have eo : 'o'.toNat = 111 := by decide
+  have ep : 'p'.toNat = 112 := by decide
+  have eb : 'b'.toNat = 98 := by decide
+  rw [eo, ep, eb] at hk
+  unfold keySwitch
+  rw [ek, ej, eg, eh, el, es, ec, er, ea, eo, ep, eb]
+  rw [if_neg (by omega), if_neg (by omega), if_neg (by omega), if_neg (by omega), if_neg (by omega),
+    if_neg (by omega), if_neg (by omega), if_neg (by omega), if_pos hk, hc]
+  simp only
+  split <;> rename_i hsel <;> simp only [hsel]
+
+/-- A media key that finds a link starts the hook from every mode in which keys are read as
+    keys (normal, selection — which it first leaves —, opening, problem). -/
+theorem update_media (w : World) (s : State) (k : Nat) (cur : Option T) (x : Link.Sel)
+    (g1 : s.mode ≠ .loading) (g4 : s.mode ≠ .command)
+    (hk : k = 'o'.toNat ∨ k = 'p'.toNat ∨ k = 'b'.toNat) (hc : currentItem s = .ok cur)
+    (hx : (if k = 'o'.toNat then mediaOf w cur else pictureOf w (k = 'b'.toNat) cur) = some x) :
+    ∃ s', update w s k = .ok s' ∧ s'.mode = .opening ∧ s'.buffer = x.link := by
+  have e0 : '0'.toNat = 48 := by decide
+  have e9 : '9'.toNat = 57 := by decide
+  have ec : ':'.toNat = 58 := by decide
+  have ed : '.'.toNat = 46 := by decide
+  have eo : 'o'.toNat = 111 := by decide
+  have ep : 'p'.toNat = 112 := by decide
+  have eb : 'b'.toNat = 98 := by decide
+  have hk' : k = 111 ∨ k = 112 ∨ k = 98 := by rw [eo, ep, eb] at hk; exact hk
+  have hu : update w s k =
+      keySwitch w (if s.mode = .selection then { s with mode := .normal, buffer := [] } else s) k := by
+    unfold update
+    rw [if_neg g1, if_neg (by omega), if_neg (by omega), if_neg g4, ec, if_neg (by omega), e0, e9,
+      if_neg (by omega), ed]
+    split
+    · rw [if_neg (by omega)]
+    · rfl
+  by_cases hsel : s.mode = .selection
+  · rw [if_pos hsel] at hu
+    have hc' : currentItem ({ s with mode := .normal, buffer := [] } : State) = .ok cur := hc
+    rw [hu, keySwitch_media w _ k cur hk hc', hx]
+    exact ⟨_, rfl, rfl, rfl⟩
+  · rw [if_neg hsel] at hu
+    rw [hu, keySwitch_media w _ k cur hk hc, hx]
+    exact ⟨_, rfl, rfl, rfl⟩
 
 end C07
